@@ -4,6 +4,8 @@ Property theorems only (ledger side; the cluster side is C02's model).
 -/
 import Helm.Model.Ledger
 import Helm.Lemmas.Ledger
+import Helm.Gen.Tables
+import Helm.Spec.Skeletons
 
 namespace Helm.Props.C03
 open Helm.Ledger
@@ -167,6 +169,19 @@ theorem atomic_install_leaves_nothing_instance :
     ∀ f ∈ [({ preHook := .fail } : Faults), { resources := .fail }, { wait := .fail }, { postHook := .fail }],
       (install { nHooks := 1, atomic := true } f {} 3 []).2 = .error ∧
       (install { nHooks := 1, atomic := true } f {} 3 []).1.ledger = [] := by
+  decide
+
+/-! ### the failure paths in the source (regenerated at every run) -/
+
+/-- What a failing upgrade / rollback / install writes, and in which order, is what the model's
+failure closures were written from; a failed upgrade never marks the original revision
+superseded before its post-upgrade hooks have passed. -/
+theorem failure_paths_skeleton :
+    Helm.Gen.skelUpgradeFail = Helm.Spec.skelUpgradeFail ∧
+    Helm.Gen.skelInstallFail = Helm.Spec.skelInstallFail ∧
+    Helm.Gen.skelUpgradeReleasing = Helm.Spec.skelUpgradeReleasing ∧
+    Helm.Gen.skelRollbackPerform = Helm.Spec.skelRollbackPerform ∧
+    Helm.Spec.precedes "cfg.execHook:HookPostUpgrade" "set originalRelease StatusSuperseded" Helm.Gen.skelUpgradeReleasing = true := by
   decide
 
 end Helm.Props.C03
